@@ -41,6 +41,9 @@ CHECKS["C06"] = dict(engine="enum", technique="bounded-exhaustive mutation enume
 CHECKS["C16"] = dict(engine="enum", technique="bounded-exhaustive program enumeration: generated IDL corpus through the real tars2go + go build + static conformance; every token/byte-level mutation and every short token string through the real lexer/parser/generator under a deterministic token budget; regeneration diff of the checked-in bindings",
              text="(a) corpus of all member kinds x require/optional x default x tag classes, containers to depth 2, arrays, enums/consts/interfaces/includes: tars2go must exit 0, the output must compile and match the schema; (b) every byte/token prefix, single-token deletion/duplication/replacement/insertion of small files, all token strings <=3(4) in five contexts, all byte strings <=2 and character-class strings <=4: the tool must terminate with a diagnostic (token budget detects hangs deterministically), cross-checked on the real binary; (c) the framework's own bindings regenerated and compared.",
              note="Dynamic codec/call behaviour of the generated code is the business of C01/C03/C04; constructs the tool rejects by design with a diagnostic are not generated as valid.", ref="§5 C16")
+CHECKS["C12"] = dict(engine="govm", technique="stateless model checking: shutdown instant x pool size x request pattern, each under deviation-bounded exhaustive schedules (3 default policies) of the real TarsServer/tcpHandler/gpool over an in-memory network with virtual time",
+             text="Real TarsServer + tcpHandler + gpool + Protocol + generated dispatcher; 1-2 scripted clients, 1-3 requests in flight or queued, handler durations 0/300/700/3000 ms, pool 0/1/2, Shutdown at 0/5/10/100 ms with ample or too-short context; all schedules within 2 deviations (3-4 in thorough). Every request the server read (network log) must be answered before its connection closes, accepted clients must get the reconnect notice, Shutdown must return at drain or context expiry, no receive loop may stay blocked on the job queue.",
+             note="'already read' is taken from the vnet log; clients never close first; Shutdown may lag the drain by its 500 ms poll.", ref="§5 C12")
 NOT_YET = {}
 ALL = ["C%02d" % i for i in range(1, 21)]
 
